@@ -1,0 +1,75 @@
+//go:build verif
+
+// Contracts for govc (contract-based deductive verification); comment-only, compiled only with -tags verif.
+package aggsender
+
+// ---- epoch notifier (C18). S = starting block, N = blocks per epoch (>= 1), pct = threshold percentage (<= 99).
+
+//@ spec fn epochOf(S int, N int, b int) int = ite(b < S, 0, 1 + (b - S) / N)
+//@ spec fn elapsedIn(S int, N int, b int) int = (b - S) % N
+//@ spec fn thresholdOf(N int, pct int) real = ite(real(pct) / 100.0 > real(N - 1) / real(N), real(N - 1) / real(N), real(pct) / 100.0)
+//@ spec fn pastThreshold(S int, N int, pct int, b int) bool = real(elapsedIn(S, N, b)) / real(N) >= thresholdOf(N, pct)
+
+//@ func (c *ConfigEpochNotifierPerBlock) Validate
+//@   props C18
+//@   requires c != nil
+//@   ensures[valid] result == nil ==> c.NumBlockPerEpoch >= 1 && c.EpochNotificationPercentage <= 99
+
+//@ func (e *EpochNotifierPerBlock) epochNumber
+//@   props C18
+//@   requires e != nil && e.Config.NumBlockPerEpoch >= 1
+//@   requires currentBlock - e.Config.StartingEpochBlock < 18446744073709551614
+//@   ensures[epoch] result == epochOf(e.Config.StartingEpochBlock, e.Config.NumBlockPerEpoch, currentBlock)
+
+//@ func (e *EpochNotifierPerBlock) startingBlockEpoch
+//@   props C18
+//@   requires e != nil && e.Config.NumBlockPerEpoch >= 1
+//@   requires epoch >= 1 && e.Config.StartingEpochBlock + (epoch - 1) * e.Config.NumBlockPerEpoch < 18446744073709551616
+//@   ensures[start] result == e.Config.StartingEpochBlock + (epoch - 1) * e.Config.NumBlockPerEpoch
+
+//@ func (e *EpochNotifierPerBlock) percentEpoch
+//@   props C18
+//@   requires e != nil && e.Config.NumBlockPerEpoch >= 1
+//@   requires currentBlock >= e.Config.StartingEpochBlock && currentBlock - e.Config.StartingEpochBlock < 18446744073709551614
+//@   ensures[percent] result == real(elapsedIn(e.Config.StartingEpochBlock, e.Config.NumBlockPerEpoch, currentBlock)) / real(e.Config.NumBlockPerEpoch)
+
+//@ func (e *EpochNotifierPerBlock) isNotificationRequired
+//@   props C18
+//@   requires e != nil && e.Config.NumBlockPerEpoch >= 1 && e.Config.EpochNotificationPercentage <= 99
+//@   requires currentBlock >= e.Config.StartingEpochBlock && currentBlock - e.Config.StartingEpochBlock < 18446744073709551614
+//@   ensures[epoch] result1 == epochOf(e.Config.StartingEpochBlock, e.Config.NumBlockPerEpoch, currentBlock)
+//@   ensures[needed] result0 == (pastThreshold(e.Config.StartingEpochBlock, e.Config.NumBlockPerEpoch, e.Config.EpochNotificationPercentage, currentBlock) && epochOf(e.Config.StartingEpochBlock, e.Config.NumBlockPerEpoch, currentBlock) + 1 > lastEpochNotified)
+
+// abstract step of the notifier (what step() must compute), over (lastBlockSeen, waitingForEpoch)
+//@ spec fn observedBlk(S int, last int, b int) bool = b >= S && b > last
+//@ spec fn stepNotify(S int, N int, pct int, last int, waiting int, b int) bool = observedBlk(S, last, b) && pastThreshold(S, N, pct, b) && epochOf(S, N, b) + 1 > waiting
+//@ spec fn stepWaiting(S int, N int, pct int, last int, waiting int, b int) int = ite(stepNotify(S, N, pct, last, waiting, b), epochOf(S, N, b) + 1, waiting)
+//@ spec fn stepLast(S int, last int, b int) int = ite(observedBlk(S, last, b), b, last)
+// ghost history variable: the last epoch in which an observed block was at or past the threshold (0 = none yet)
+//@ spec fn stepLastPast(S int, N int, pct int, last int, lastPast int, b int) int = ite(observedBlk(S, last, b) && pastThreshold(S, N, pct, b), epochOf(S, N, b), lastPast)
+//@ spec fn notifierInv(S int, N int, last int, waiting int, lastPast int) bool = last >= S && lastPast >= 0 && waiting == lastPast + 1 && lastPast <= epochOf(S, N, last)
+
+//@ func (e *EpochNotifierPerBlock) step
+//@   props C18
+//@   requires e != nil && e.logger != nil && e.Config.NumBlockPerEpoch >= 1 && e.Config.EpochNotificationPercentage <= 99
+//@   requires newBlock.BlockNumber >= e.Config.StartingEpochBlock ==> e.Config.StartingEpochBlock + epochOf(e.Config.StartingEpochBlock, e.Config.NumBlockPerEpoch, newBlock.BlockNumber) * e.Config.NumBlockPerEpoch < 18446744073709551614
+//@   ensures[seen] result0.lastBlockSeen == stepLast(e.Config.StartingEpochBlock, status.lastBlockSeen, newBlock.BlockNumber)
+//@   ensures[notify] (result1 != nil) == stepNotify(e.Config.StartingEpochBlock, e.Config.NumBlockPerEpoch, e.Config.EpochNotificationPercentage, status.lastBlockSeen, status.waitingForEpoch, newBlock.BlockNumber)
+//@   ensures[waiting] result0.waitingForEpoch == stepWaiting(e.Config.StartingEpochBlock, e.Config.NumBlockPerEpoch, e.Config.EpochNotificationPercentage, status.lastBlockSeen, status.waitingForEpoch, newBlock.BlockNumber)
+//@   ensures[event-epoch] result1 != nil ==> result1.Epoch == epochOf(e.Config.StartingEpochBlock, e.Config.NumBlockPerEpoch, newBlock.BlockNumber)
+//@   ensures[config-unchanged] e.Config == old(e.Config)
+
+// history-level statement, over the abstract step (pure SMT obligations over the contract's spec functions)
+//@ lemma epochInit(S int, N int)
+//@   props C18
+//@   requires S >= 0 && N >= 1
+//@   ensures[init] notifierInv(S, N, S, epochOf(S, N, S), 0)
+
+//@ lemma epochOnce(S int, N int, pct int, last int, waiting int, lastPast int, b int)
+//@   props C18
+//@   requires S >= 0 && N >= 1 && pct >= 0 && pct <= 99 && b >= 0
+//@   requires notifierInv(S, N, last, waiting, lastPast)
+//@   ensures[inv] notifierInv(S, N, stepLast(S, last, b), stepWaiting(S, N, pct, last, waiting, b), stepLastPast(S, N, pct, last, lastPast, b))
+//@   ensures[once-at-first] stepNotify(S, N, pct, last, waiting, b) == (observedBlk(S, last, b) && pastThreshold(S, N, pct, b) && epochOf(S, N, b) > lastPast)
+//@   ensures[increasing] stepNotify(S, N, pct, last, waiting, b) ==> epochOf(S, N, b) >= waiting && stepWaiting(S, N, pct, last, waiting, b) > waiting
+//@   ensures[never-back] stepWaiting(S, N, pct, last, waiting, b) >= waiting && stepLast(S, last, b) >= last
